@@ -13,6 +13,7 @@ import (
 	"go/parser"
 	"go/token"
 	"go/types"
+	"net/http"
 	"os"
 	"path/filepath"
 	"sort"
@@ -502,6 +503,69 @@ func main() {
 	}
 	fmt.Fprintf(&out, "def concatOrder : List (String × String) := [%s]\n\n", strings.Join(concat, ", "))
 	js["concatOrder"] = concat
+
+	// ---- the bundled recovery options answer through http.Error(w, http.StatusText(status), status); and the shorthand
+	// registration methods pass the method they are named after
+	var recov []string
+	for _, key := range []string{"..WithStatusRecovery", "..WithWriteRecovery", "..WithLogRecovery", "..WithSLogRecovery"} {
+		fi := byKey[key]
+		shape := "unknown"
+		if fi != nil {
+			ast.Inspect(fi.decl.Body, func(n ast.Node) bool {
+				ce, ok := n.(*ast.CallExpr)
+				if !ok {
+					return true
+				}
+				if se, ok := ce.Fun.(*ast.SelectorExpr); ok && exprString(se.X) == "http" && se.Sel.Name == "Error" && len(ce.Args) == 3 {
+					mid := exprString(ce.Args[1])
+					if inner, ok := ce.Args[1].(*ast.CallExpr); ok {
+						var as []string
+						for _, a := range inner.Args {
+							as = append(as, exprString(a))
+						}
+						mid = exprString(inner.Fun) + "(" + strings.Join(as, ",") + ")"
+					}
+					shape = exprString(ce.Args[0]) + "|" + mid + "|" + exprString(ce.Args[2])
+				}
+				return true
+			})
+		}
+		recov = append(recov, fmt.Sprintf("(%s, %s)", strconv.Quote(strings.TrimLeft(key, ".")), strconv.Quote(shape)))
+	}
+	fmt.Fprintf(&out, "def recoveryShapes : List (String × String) := [%s]\n", strings.Join(recov, ", "))
+	js["recoveryShapes"] = recov
+	var sts []string
+	for _, code := range []int{200, 400, 404, 418, 500, 503, 599, 0, 299} {
+		sts = append(sts, fmt.Sprintf("(%d, %d)", code, len(http.StatusText(code))))
+	}
+	fmt.Fprintf(&out, "def statusTextLens : List (Nat × Nat) := [%s]   -- len(http.StatusText(code)) of the Go toolchain in use\n", strings.Join(sts, ", "))
+	var shorts []string
+	for _, recv := range []string{"Router", "Prefix", "Resource"} {
+		for _, name := range []string{"Get", "Post", "Delete", "Put", "Patch", "Any"} {
+			fi := byKey["."+recv+"."+name]
+			arg := "unknown"
+			if fi != nil {
+				ast.Inspect(fi.decl.Body, func(n ast.Node) bool {
+					ce, ok := n.(*ast.CallExpr)
+					if !ok {
+						return true
+					}
+					if se, ok := ce.Fun.(*ast.SelectorExpr); ok && se.Sel.Name == "Handle" {
+						arg = "-"
+						if len(ce.Args) > 0 {
+							if last := exprString(ce.Args[len(ce.Args)-1]); strings.HasPrefix(last, "http.Method") {
+								arg = strings.ToUpper(strings.TrimPrefix(last, "http.Method"))
+							}
+						}
+					}
+					return true
+				})
+			}
+			shorts = append(shorts, fmt.Sprintf("(%s, %s)", strconv.Quote(recv+"."+name), strconv.Quote(arg)))
+		}
+	}
+	fmt.Fprintf(&out, "def shorthandMethods : List (String × String) := [%s]\n\n", strings.Join(shorts, ", "))
+	js["shorthandMethods"] = shorts
 
 	// ---- which functions write shared state, directly or through a callee (fixpoint over the static call graph)
 	writes := map[string]bool{}
